@@ -9,7 +9,7 @@ SPEC = dict(
     rule='exhaustive: every map over every subset of a small key universe with outputs from a small alphabet '
          '(quick: 6 keys x 3 outputs; thorough: 12 keys, sampled patterns), plus seeded random full-size maps '
          '(identity, quantiser, non-monotonic, constant, single entry, sparse user map), plus the default map the real controller computes for a fan '
-         'without PWM read-back (route=default: cmd fan, no override, empty database; recorded as the identity on 0..255); requests = every supported key, '
+         'without PWM read-back (route=default: cmd fan, no override, empty database; recorded as the identity on 0..255), and histories on one controller (prev=const|rev: the same controller held another map with the same keys before and derived its supported inputs from it); requests = every supported key, '
          'its neighbours, midpoints +-1, -50, 305 and random ones. Non-trivial = at least two supported inputs; '
          'distinct = distinct (map, requests, observation) terms.',
     assumptions=['PWM-map outputs are never -1 (the sentinel of ExtractKeysWithDistinctValues); outputs are PWM values',
